@@ -89,3 +89,15 @@ pub uninterp spec fn unknown_text(name: Seq<char>, extra: Seq<char>) -> Seq<char
 pub fn fmt_unknown(name: &String, extra: &String) -> (r: String) ensures r@ == unknown_text(name@, extra@) { unimplemented!() }
 #[verifier::external_body]
 pub fn push_error(diagnostics: &mut Diagnostics, message: String) ensures final(diagnostics)@ == old(diagnostics)@.push(message@) { unimplemented!() }
+
+// the typer and its environments as far as a variant of the unknown-fields block may use them: checking a sub-pattern may push any diagnostics
+#[verifier::external_body] pub struct GenvShim { _p: u64 }
+#[verifier::external_body] pub struct LocalEnvShim { _p: u64 }
+#[verifier::external_body] pub struct TyShim { _p: u64 }
+#[verifier::external_body] pub struct Typer { _p: u64 }
+impl Typer {
+    #[verifier::external_body] pub fn fresh_ty_var(&mut self) -> (r: TyShim) { unimplemented!() }
+    #[verifier::external_body] pub fn check_pat(&mut self, genv: &GenvShim, local_env: &mut LocalEnvShim, diagnostics: &mut Diagnostics, id: PatId, expected: &TyShim) { unimplemented!() }
+}
+// `m.into_values()` / `m.values()`: the values in the hash map's iteration order — unspecified, different from run to run
+#[verifier::external_body] pub fn iter_order<V>(m: &HashMap<String, V>) -> (r: Vec<V>) { unimplemented!() }
